@@ -3,7 +3,7 @@ SPEC = {
     "coq_props": ["Properties/C09.v", "Corr/C09.v"],
     "module": "MS.Properties.C09",
     "theorems": ["C09_guarded", "C09_guarded_any_codec", "C09_writer", "C09_store", "C09_read_all",
-                 "C09_refuted_F2", "C09_refuted_F3"],
+                 "C09_refuted_F2"],
     "corr_require": "Require Import MS.Corr.C09.",
     "agrees": "C09.agrees",
     "in_domain": "C09.in_domain",
@@ -40,8 +40,8 @@ SPEC = {
     "level_text": "Coq theorem C09_guarded: for EVERY write history (any requests, any row order, many records per interval, any years) inside "
                   "the guard the query over all time returns a permutation of the written records (exactly once, payload bit-equal), in "
                   "non-decreasing time order; C09_writer/C09_store: for ALL histories and all tick codecs every slot stays stably sorted by "
-                  "ticks and holds exactly the records written to it; two replayed refutations (F2 daily Jan-1, F3 cross-year merge); "
-                  "F4 (buffer panic, 247ada4), F1 (second rounded up, 551fdb4) and the 4H lookup (d275195) are fixed in /repo, their guards dropped. Model tied to the code by differential in-Coq evaluation on every run.",
+                  "ticks and holds exactly the records written to it; one replayed refutation (F2 daily Jan-1); F4 (buffer panic, 247ada4), "
+                  "F1 (second rounded up, 551fdb4), the 4H lookup (d275195) and F3 (cross-year merge, 49eddda) are fixed in /repo, their guards dropped. Model tied to the code by differential in-Coq evaluation on every run.",
     "level_note": "Axioms: Coq.Reals (through Flocq's definition of the tick codec) for the instantiated theorem only. Trusted: Coq kernel/VM, "
                   "gen translator, harness. Modelled not verified: writer.go WriteRecords/formatRecord/WriteBufferToFileIndirect, sort.go, "
                   "wal.go FlushCommandsToWAL order, readvariable.go, rewritebuffer.go, scanner.go, timeindex.go.",
